@@ -140,6 +140,10 @@ pub fn run_c10(ctx: &mut Ctx) {
                     if n > 0 { w.done_payloads.push(job.data[..n.min(job.data.len())].to_vec()); }
                     if job.flush_after { w.in_flush = true; }
                     w.cur += 1;
+                    // AsyncWriteExt::close() on a StreamWriter between records: succeeds at once and writes nothing (only the Request ends streams)
+                    if rng.chance(1, 8) { let idx = w.idx; let o = ex(&mut log, &mut im, &format!("a.cpoll {idx}")); wlog.extend(unhex(field(&o, "wd").unwrap_or("-")));
+                        if !o.starts_with("ready") || field(&o, "wd") != Some("-") { or.fail(format!("poll_close of an idle StreamWriter returned `{}`", &o[..o.len().min(60)]), log.replay_block(), "C10:close".into()); }
+                        or.count("writer_closes"); }
                 }
             }
         }
